@@ -87,7 +87,7 @@ class Scenario:
         # bystanders that must never be touched
         open(os.path.join(self.home, 'bystander.txt'), 'w').write('home bystander\n')
         open(os.path.join(self.cwd, 'bystander.txt'), 'w').write('cwd bystander\n')
-        if self.prior in ('older', 'identical', 'unrelated', 'older-samesize'):
+        if self.prior in ('older', 'identical', 'unrelated', 'older-samesize', 'older-modes'):
             os.makedirs(self.skilldir, exist_ok=True)
         if self.prior == 'older':
             for rel in self.tree:
@@ -95,6 +95,13 @@ class Scenario:
                 os.makedirs(os.path.dirname(p), exist_ok=True)
                 open(p, 'w').write('older version of %s\n' % rel)
                 os.chmod(p, 0o644)
+        elif self.prior == 'older-modes':
+            # an older install whose files carry other permission bits
+            for k, rel in enumerate(sorted(self.tree)):
+                p = os.path.join(self.skilldir, rel)
+                os.makedirs(os.path.dirname(p), exist_ok=True)
+                open(p, 'w').write('older version of %s\n' % rel)
+                os.chmod(p, [0o600, 0o444, 0o755, 0o640][k % 4])
         elif self.prior == 'older-samesize':
             # an earlier release whose files have exactly the length of today's, but other bytes
             for rel in self.tree:
@@ -331,7 +338,7 @@ def main_c16(tier):
             nruns = 0
             meta = {}
             flagsets = ['default', 'user', 'path-rel', 'path-abs', 'path-user', 'path-rel-user']
-            priors = ['absent', 'older', 'older-samesize', 'unrelated', 'base-is-file']
+            priors = ['absent', 'older', 'older-samesize', 'older-modes', 'unrelated', 'base-is-file']
             scs = []
             for agent in sorted(table):
                 for fl in flagsets:
